@@ -13,7 +13,7 @@ from vlib.runner import gbool, gopt, gtext
 
 IMPORTS = ("From Ahb Require Import Model.Prelude Model.Grammar Gen.Gen_logic Gen.Gen_valmaps Gen.Gen_enums "
            "Model.EvalRC Model.EvalFC Model.EvalAhb Model.Validate Corr.Eval Corr.Validate.")
-MM = ["Muss", "M", "muss", "m", "MUSS", "Soll", "S", "soll", "s", "Kann", "K", "kann", "k", "kANN"]
+MM = ["Muss", "M", "muss", "m", "MUSS", "Soll", "S", "soll", "s", "Kann", "K", "kann", "k", "kANN", "MUss", "mUsS", "sOLl", "SOll", "KaNN"]   # any letter case
 PO = ["X", "O", "U", "x", "o", "u"]
 # small pools so that the same keys meet again; the boundary keys of the documented ranges are among them (499 is the last requirement constraint of the
 # first range, 500 / 900 the first / last hint, 999 the last format constraint)
@@ -304,6 +304,34 @@ def run_validation(lines, soll):
 
     deep = DeepAnwendungshandbuch(meta=AhbMetaInformation(pruefidentifikator="11042"), lines=[to_maus(n) for n in lines])
     return evalimpl.outcome(lambda: asyncio.run(validate_deep_anwendungshandbuch(deep, soll_is_required=soll)))
+
+
+def run_validation_both_flags(lines, order=(True, False), delay=0):
+    """the strict and the lenient validation of one AHB in flight at the same time on one event loop (the second started after `delay` turns of the loop);
+    returns the outcomes in the order of `order`"""
+    from maus.models.anwendungshandbuch import AhbMetaInformation, DeepAnwendungshandbuch
+    from ahbicht.validation.validation import validate_deep_anwendungshandbuch
+
+    # one AHB object per validation: validate_data_element_valuepool clears an entered value that is not offered IN the AHB it is handed ("overwrite the illegal
+    # value"), so a second validation of the same object no longer sees that input -- sequentially as well; not what is compared here
+    deeps = {flag: DeepAnwendungshandbuch(meta=AhbMetaInformation(pruefidentifikator="11042"), lines=[to_maus(n) for n in lines]) for flag in order}
+
+    async def later(flag, turns):
+        for _ in range(turns):
+            await asyncio.sleep(0)
+        return await validate_deep_anwendungshandbuch(deeps[flag], soll_is_required=flag)
+
+    async def both():
+        return await asyncio.gather(later(order[0], 0), later(order[1], delay), return_exceptions=True)
+
+    def as_outcome(r):
+        def again():
+            if isinstance(r, BaseException):
+                raise r
+            return r
+        return evalimpl.outcome(again)
+
+    return [as_outcome(r) for r in asyncio.run(both())]
 
 
 def run_segment_level(node, soll):
